@@ -171,6 +171,30 @@ theorem invoke_transparent (cfg : Cfg) (s : St) (i id : Nat) (hi : i < 3)
     cases hs : s.slot i <;> simp_all [engaged, Slot.ref]
   cases hs : s.slot i <;> simp_all [step, invokeEff, St.apply, Slot.ref]
 
+/-- **Wrappers do not interfere**: ANY sequence of operations that never names variable k leaves
+    variable k as it is and the value of the payload it owns unchanged — whatever happens to the other
+    variables (moves, assignments, swaps, throwing moves, destruction). -/
+theorem untouched_wrapper_keeps_value (cfg : Cfg) (s : St) (ops : List Op) (k id : Nat) (hinv : Inv s)
+    (hk : k < 3) (href : (s.slot k).ref = some id) (hm : ∀ op ∈ ops, op.mentions k = false) :
+    (run cfg s ops).1.slot k = s.slot k ∧ (run cfg s ops).1.val id = s.val id := by
+  induction ops generalizing s with
+  | nil => simp [run]
+  | cons op ops ih =>
+    have h1 := step_frame cfg s op k id hinv hk href (hm op List.mem_cons_self)
+    have h2 := ih (step cfg s op).1 (step_inv cfg s op hinv) (by rw [h1.1]; exact href)
+      (fun q hq => hm q (List.mem_cons_of_mem _ hq))
+    simp only [run]
+    exact ⟨h2.1.trans h1.1, h2.2.trans h1.2⟩
+
+/-- hence: invoking through a wrapper after any amount of unrelated activity still yields the
+    wrapped payload's value -/
+theorem invoke_after_unrelated_ops (cfg : Cfg) (s : St) (ops : List Op) (k id : Nat) (hinv : Inv s)
+    (hk : k < 3) (href : (s.slot k).ref = some id) (hm : ∀ op ∈ ops, op.mentions k = false) :
+    (step cfg (run cfg s ops).1 (.invoke k)).2 = ⟨[], .val (s.val id)⟩ := by
+  have h := untouched_wrapper_keeps_value cfg s ops k id hinv hk href hm
+  have := (invoke_transparent cfg (run cfg s ops).1 k id hk (by rw [h.1]; exact href)).1
+  rw [this, h.2]
+
 /-- a freshly constructed wrapper yields the value it was constructed from — in-place or converting,
     inline or heap, default or explicit allocator -/
 theorem construct_then_invoke (cfg : Cfg) (s : St) (j : Nat) (c : Cls) (v : Nat) (m : Mode)
